@@ -185,7 +185,7 @@ PROPS = {
                            extra=lambda rng, tier: [(f"cb{i}", sim_suite.gen_crash_burst(rng)) for i in range(150 if tier == "quick" else 3000)])]},
     "C15": {"ready": True, "replay": sim_replay, "suites": [snapshot_check(walk=0, routes=True, fp=True)]},
     "C17": {"ready": True, "replay": sim_replay,
-            "partial": "whole-run invariants are proved for the per-process logs/counters (LogInv) and the global trace (TraceInv: ids, network counters, traffic, single fate exactly for duplication-free sends, at most 3 otherwise); the times recorded in entries and the per-copy fate under duplication are judged by the monitor and the bit-exact correspondence",
+            "partial": "whole-run invariants are proved for the per-process logs/counters (LogInv) and the global trace (TraceInv: ids, network counters, traffic, single fate exactly for duplication-free sends, at most 3 otherwise); the times recorded in the global trace are a theorem (trace_times_sorted); the times in the per-process event logs and the per-copy fate under duplication are judged by the monitor and the bit-exact correspondence",
             "suites": [sim("sim_logs", "C17", dict(p_fault=0.5, p_crash=0.4, p_link=0.3, nodes=(2, 3), procs=(2, 4)),
                            nontrivial=lambda st: st["received"] and (st["dropped"] or st["crash"]),
                            extra=lambda rng, tier: [(f"cb{i}", sim_suite.gen_crash_burst(rng)) for i in range(150 if tier == "quick" else 3000)])]},
